@@ -27,6 +27,7 @@ type Env struct {
 	atPos   int // for local-name disambiguation (token.Pos of the loop)
 	depth   int
 	outer   map[string]Val // entry values of the enclosing function's parameters (closure contracts)
+	tfn     *ssa.Function  // the function the clause belongs to (type parameters resolve to its type arguments)
 }
 
 func (e *Env) fail(format string, a ...interface{}) Val {
@@ -84,6 +85,20 @@ func (e *Env) resolveType(name string) types.Type {
 	if o := types.Universe.Lookup(name); o != nil {
 		if tn, ok := o.(*types.TypeName); ok {
 			return tn.Type()
+		}
+	}
+	// a type parameter of the (instantiated) function under contract
+	for _, f := range []*ssa.Function{e.tfn, e.x.fn} {
+		if f == nil {
+			continue
+		}
+		f = rootFn(f)
+		if o := f.Origin(); o != nil && o.TypeParams() != nil {
+			for i := 0; i < o.TypeParams().Len() && i < len(f.TypeArgs()); i++ {
+				if o.TypeParams().At(i).Obj().Name() == name {
+					return f.TypeArgs()[i]
+				}
+			}
 		}
 	}
 	if e.pkg != nil {
@@ -216,7 +231,10 @@ func (e *Env) localByName(name string) (Val, bool) {
 		}
 	}
 	if pick == nil {
-		return Val{}, false
+		// declared in the function but not (yet) on this path: an arbitrary
+		// value (a clause that mentions it must hold whatever it is)
+		T := cands[0].Type().(*types.Pointer).Elem()
+		return e.x.freshVal(e.st, "undeclared_"+want, T), true
 	}
 	pv, ok := e.fr.vals[pick]
 	if !ok {
@@ -396,6 +414,23 @@ func (e *Env) evalIdent(name string) Val {
 	}
 	_ = x
 	return e.fail("unknown identifier %q", name)
+}
+
+// typedArgs gives untyped nil arguments of a spec-level call the zero value
+// of the parameter type (so code and spec build the same term).
+func (e *Env) typedArgs(f *ssa.Function, args []Val, skip int) []Val {
+	ps := f.Signature.Params()
+	for i := range args {
+		j := i - skip
+		if j < 0 || j >= ps.Len() {
+			continue
+		}
+		if bt, ok := args[i].Typ.(*types.Basic); ok && bt.Kind() == types.UntypedNil {
+			T := ps.At(j).Type()
+			args[i] = Val{T: e.x.te.Zero(T), Typ: T}
+		}
+	}
+	return args
 }
 
 func (e *Env) unifyNil(a, b Val) (Val, Val) {
@@ -909,6 +944,18 @@ func (e *Env) evalCall(n SCall) Val {
 			hk, hs, _, _ := x.mapComps(mt)
 			has := x.heapGet(e.st, hk, hs)
 			return Val{T: And(Not(Eq(m.T, IntLit(0))), Select(Select(has, m.T), x.termOf(e.st, &k))), Typ: boolT}
+		case "visited":
+			// visited(m, k): the range over map m in progress has already
+			// produced key k (ghost state of the iteration)
+			m := e.eval(n.Args[0])
+			k := e.eval(n.Args[1])
+			for gk, mref := range e.st.ghost {
+				if strings.HasPrefix(gk, "vismap:") && mref.S == m.T.S {
+					vis := e.st.ghost["vis:"+strings.TrimPrefix(gk, "vismap:")]
+					return Val{T: Select(vis, x.termOf(e.st, &k)), Typ: boolT}
+				}
+			}
+			return e.fail("visited(): no range over %s is in progress", exprString(n.Args[0]))
 		case "typeIs":
 			v := e.eval(n.Args[0])
 			tn, ok := n.Args[1].(SIdent)
@@ -956,7 +1003,7 @@ func (e *Env) evalCall(n SCall) Val {
 					for _, a := range n.Args {
 						args = append(args, e.eval(a))
 					}
-					return x.pureApp(e.st, f, args)
+					return x.pureApp(e.st, f, e.typedArgs(f, args, 0))
 				}
 			}
 			// conversion to a named type of the package
@@ -987,7 +1034,7 @@ func (e *Env) evalCall(n SCall) Val {
 								for _, a := range n.Args {
 									args = append(args, e.eval(a))
 								}
-								return x.pureApp(e.st, f, args)
+								return x.pureApp(e.st, f, e.typedArgs(f, args, 0))
 							}
 						}
 						if sf, ok := x.cs.Specs[sel.Name]; ok && sf.Pkg == p.Path() {
@@ -1037,7 +1084,7 @@ func (e *Env) evalCall(n SCall) Val {
 				for _, a := range n.Args {
 					args = append(args, e.eval(a))
 				}
-				return x.pureApp(e.st, f, args)
+				return x.pureApp(e.st, f, e.typedArgs(f, args, 1))
 			}
 		}
 		// interface method as uninterpreted function of receiver and args
@@ -1081,6 +1128,15 @@ func (e *Env) applyFnValue(fn Val, argExprs []SExpr) Val {
 	}
 	if sig.Results().Len() != 1 {
 		return e.fail("func value with %d results used in spec", sig.Results().Len())
+	}
+	if (fn.SFn != nil || fn.Clo != nil) && len(args) == 3 {
+		// a statically known function means what its body computes
+		if t, facts, ok := x.applyFn2(e.st, fn, args[1], args[2]); ok {
+			for _, f := range facts {
+				e.st.assume(f)
+			}
+			return Val{T: t, Typ: sig.Results().At(0).Type()}
+		}
 	}
 	name := "app_" + sanitize(shortTypeName(sig))
 	return x.uninterp(e.st, name, args, sig.Results().At(0).Type())
